@@ -455,8 +455,8 @@ pub fn run_jobs(jobs: Vec<(Job, usize)>, maxbound: usize, cap: u64, threads: usi
 
 fn jobs_for(prop: &str, tier: &str) -> (Vec<(Job, usize)>, usize) {
     let thorough = tier == "thorough";
-    let maxbound = if thorough { 3 } else { 2 };
-    let worker_counts: Vec<usize> = if thorough { vec![2, 3] } else { vec![2] };
+    let maxbound = 3;
+    let worker_counts: Vec<usize> = if thorough { vec![2, 3, 4] } else { vec![2, 3] };
     let mut jobs: Vec<(Job, usize)> = Vec::new();
     let d3: Vec<Abs> = (0..64).map(|m| Abs::from_mask(3, m)).collect();
     let some4: Vec<Abs> = {
@@ -474,13 +474,23 @@ fn jobs_for(prop: &str, tier: &str) -> (Vec<(Job, usize)>, usize) {
                 for a in &d3 {
                     jobs.push((Job::AlIsSemicomplete(a.clone()), w));
                 }
-                let sel: Vec<Abs> = (0..4096u64).filter(|m| m.count_ones() >= if thorough { 6 } else { 9 }).map(|m| Abs::from_mask(4, m)).collect();
+                let sel: Vec<Abs> = (0..4096u64).filter(|m| m.count_ones() >= 6).map(|m| Abs::from_mask(4, m)).collect();
                 for a in sel {
                     jobs.push((Job::AlIsSemicomplete(a), w));
                 }
+                if thorough {
+                    // order 5: complete minus both arcs of every pair, minus one arc of every pair, and the 1024 tournaments' complements are too many: the near-miss families
+                    for a in 0..5usize {
+                        for b in (a + 1)..5 {
+                            for kind in 0..4 {
+                                jobs.push((Job::AlIsSemicomplete(crate::props::ops::near_complete(5, kind, a, b).1), w));
+                            }
+                        }
+                    }
+                }
             }
             "C15" => {
-                for n in 3..=(if thorough { 5 } else { 4 }) {
+                for n in 3..=(if thorough { 6 } else { 5 }) {
                     for seed in [0u64, 1, u64::MAX] {
                         jobs.push((Job::AmRandomTournament(n, seed), w));
                         jobs.push((Job::AmErdosRenyi(n, 0.3, seed), w));
@@ -490,12 +500,12 @@ fn jobs_for(prop: &str, tier: &str) -> (Vec<(Job, usize)>, usize) {
             }
             _ => {
                 // C17: all eight routines
-                for a in d3.iter().step_by(if thorough { 1 } else { 3 }) {
+                for a in d3.iter().step_by(1) {
                     jobs.push((Job::AlComplement(a.clone()), w));
                     jobs.push((Job::AlDegreeSequence(a.clone()), w));
                     jobs.push((Job::AlIsSemicomplete(a.clone()), w));
                 }
-                for a in some4.iter().step_by(if thorough { 1 } else { 4 }) {
+                for a in some4.iter().step_by(if thorough { 1 } else { 2 }) {
                     jobs.push((Job::AlComplement(a.clone()), w));
                     jobs.push((Job::AlDegreeSequence(a.clone()), w));
                     jobs.push((Job::AlIsSemicomplete(a.clone()), w));
@@ -540,7 +550,7 @@ pub fn main_sched(prop: &str, tier: &str) -> i32 {
     let canary0 = explore(0, 2, 100_000, || Job::CanaryLostUpdate.run());
     let (jobs, maxbound) = jobs_for(prop, tier);
     let njobs = jobs.len();
-    let cap = if tier == "thorough" { 2_000_000 } else { 200_000 };
+    let cap = if tier == "thorough" { 5_000_000 } else { 500_000 };
     let t0 = std::time::Instant::now();
     let results = run_jobs(jobs, maxbound, cap, threads);
     let mut per_routine: BTreeMap<String, (u64, u64, u64, u64, usize)> = BTreeMap::new(); // jobs, schedules, with_preemption, multi-outcome jobs, max points
